@@ -44,45 +44,49 @@ def run(ctx):
         return re.search(rx, b.local_ty(l)) is not None
 
     roles = {}
+    # (identities are (alias class of the root local, field) pairs, so the sets may also live in the fields of one struct
+    # local, e.g. a `LookupFrontier { queue, ids }` whose methods are spliced in)
+    def key_of(op):
+        k_ = L.operand_key(b, op)
+        return {k_} if k_ is not None else set()
     # result: what Ok(..) returns
     best = set()
     for bb, st in L.success_returns(b):
         for op in st['r']['ops']:
-            if 'p' in op:
-                best |= L.alias_of(b, [op['p'][0]])
+            best |= key_of(op)
     roles['best_nodes'] = best
     # queried set: the set handed to mark_self_queried
     queried = set()
     for c in b.calls():
-        if c.callee == MGR + '::mark_self_queried' and len(c.args) > 1 and 'p' in c.args[1]:
-            queried |= L.alias_of(b, [c.args[1]['p'][0]])
+        if c.callee == MGR + '::mark_self_queried' and len(c.args) > 1:
+            queried |= key_of(c.args[1])
     roles['queried_nodes'] = queried
     # candidate queue: the deque(s) of nodes popped inside the loop
     queue = set()
     for c in b.calls(r'VecDeque::<.*>::(pop_front|pop_back)$'):
-        if c.bb in nodes and c.args and 'p' in c.args[0]:
-            queue |= L.alias_of(b, [c.args[0]['p'][0]])
+        if c.bb in nodes and c.args:
+            queue |= key_of(c.args[0])
     roles['candidates'] = queue
     # batch: the vector the FIND_NODE requests are mapped over
     batch = set()
     for cs in b.calls(r'Iterator::map$|Iterator>::map$'):
         clos = [x for x in b.expr(cs.args[1]).walk() if x.k == 'agg' and x.d == 'closure']
         if clos and clos[0].a in prog.bodies and any(any(c.callee.endswith('::send_dht_request') for c in prog.bodies[i].calls()) for i in prog.family(clos[0].a)):
-            for l in L.expr_locals(b.expr(cs.args[0])):
-                if ty_is(l, r'Vec<.*DHTNode'):
-                    batch |= L.alias_of(b, [l])
+            for (l, f_) in L.expr_keys(b, b.expr(cs.args[0])):
+                if f_ is None and any(ty_is(x, r'Vec<.*DHTNode') for x in L.alias_classes(b).get(l, {l})):
+                    batch.add((l, f_))
     roles['batch'] = batch
     # queued set: a string set, not the queried one, that grows inside the loop
     queued = set()
     for c in b.calls(r'HashSet::<.*>::insert$'):
-        if c.bb in nodes and c.args and 'p' in c.args[0]:
-            cl = L.alias_of(b, [c.args[0]['p'][0]])
-            if not (cl & queried):
-                queued |= cl
+        if c.bb in nodes and c.args:
+            ks = key_of(c.args[0])
+            if ks and not (ks & queried):
+                queued |= ks
     roles['queued_peer_ids'] = queued
 
     def named(e, name):
-        return L.touches(b, e, roles.get(name, set()))
+        return L.touches_keys(b, e, roles.get(name, set()))
 
     pushes = b.calls(r'Vec::<.*>::push$')
     qpushes = b.calls(r'VecDeque::<.*>::push_back$')
@@ -91,7 +95,7 @@ def run(ctx):
     queue_p = [c for c in qpushes if named(b.expr(c.args[0]), 'candidates')]
 
     # ---- 1. bounded
-    kinds = L.classify_exits(b, loop, succ, (), queue_locals=roles['candidates'], batch_locals=roles['batch'], result_locals=roles['best_nodes'])
+    kinds = L.classify_exits(b, loop, succ, (), queue_locals=roles['candidates'], batch_locals=roles['batch'], result_locals=roles['best_nodes'] | roles['candidates'], keyed=True)
     budget = [k for k in kinds if k[0] == 'budget']
     rng_const = False
     for k, c, ln in budget:
@@ -202,12 +206,12 @@ def run(ctx):
     # else — a cache of an earlier lookup, the local answer — names peers that did not answer during THIS lookup
     res_cls = set()
     for c in sorts:
-        if c.args and 'p' in c.args[0]:
-            res_cls |= L.alias_of(b, [c.args[0]['p'][0]])
+        if c.args:
+            res_cls |= key_of(c.args[0])
     foreign = []
     for bb, st in L.success_returns(b):
         ops = [o for o in st['r']['ops'] if 'p' in o]
-        if not ops or not (L.alias_of(b, [ops[0]['p'][0]]) & res_cls or L.touches(b, b.expr(ops[0]), res_cls)):
+        if not ops or not (key_of(ops[0]) & res_cls or L.touches_keys(b, b.expr(ops[0]), res_cls)):
             foreign.append((bb, st))
     ctx.ob('RESULT', 'ok-returns-this-lookups-vector', bool(res_cls) and not foreign, b.where(foreign[0][1].get('ln') if foreign else None),
            'every Ok(..) returns the vector filled and sorted by this lookup' if not foreign else
@@ -282,4 +286,4 @@ def _from_batch(b, op, batch):
     if 'p' not in op:
         return False
     sl = b.backward_locals([op['p'][0]], limit=2500)
-    return bool(sl & batch)
+    return bool(sl & set(l for l, f in batch))
